@@ -51,13 +51,24 @@ def generate():
                    r'dest\.append\(m_text\.mid\(removeCount\)\); \} else if \(removeCount == 0\) \{ dest\.append\(m_text\); \}', w),
          'LiteralToken: removeCount guard before m_text.mid(removeCount)')
     pf = fn_body(s, 'static std::optional<FormatSpec> parseFormatSpec', 'parseFormatSpec')
-    m = need(re.search(r'QStringLiteral\("([^"]+)"\)\.contains\(possibleAlign\)', pf), 'parseFormatSpec: alignment characters')
-    aligns = m.group(1)
     sw = fn_body(s, 'static Alignment charToAlignment', 'charToAlignment')
     amap = dict((c, a) for c, a in re.findall(r"case '(.)':\s*return Alignment::(\w+);", sw))
+    m = re.search(r'QStringLiteral\("([^"]+)"\)\.contains\(possibleAlign\)', pf)
+    if m:
+        # shape 1: the set of alignment characters is a string literal tested with contains()
+        aligns = m.group(1)
+    else:
+        # shape 2: the set is whatever charToAlignment maps to an alignment: a helper
+        # `isAlignChar(ch) { return charToAlignment(ch) != Alignment::None; }` applied to <text>.at(1) and <text>.at(0)
+        need(re.search(r'static bool isAlignChar\(QChar \w+\)\s*\{\s*return charToAlignment\(\w+\) != Alignment::None;\s*\}', s)
+             and re.search(r'isAlignChar\(\w+\.at\(1\)\)', pf) and re.search(r'isAlignChar\(\w+\.at\(0\)\)', pf),
+             'parseFormatSpec: alignment characters')
+        need(re.search(r'default:\s*return Alignment::None;', sw), 'charToAlignment: default -> Alignment::None')
+        aligns = ''.join(c for c, a in amap.items() if a != 'None')
+    need(sorted(amap.get(c) for c in aligns) == ['Center', 'Left', 'Right'], 'charToAlignment: exactly one character each for Left, Right, Center')
     for c in aligns:
         need(amap.get(c) in ('Left', 'Right', 'Center'), 'charToAlignment: case for %r' % c)
-    m = need(re.search(r"s\.endsWith\(QLatin1Char\('(.)'\)\)", pf), 'parseFormatSpec: truncate suffix')
+    m = need(re.search(r"\b\w+\.endsWith\(QLatin1Char\('(.)'\)\)", pf), 'parseFormatSpec: truncate suffix')
     bang = m.group(1)
 
     p = strip_comments(rd('formatters/prettyformatter.cpp'))
